@@ -24,7 +24,7 @@ RULE = ("simulations with 2-5 bandits drawn from all 48 policy combinations (in 
         "{0,1,2,3,7,|test|-1,|test|}, is_quick, seeds; one oracle evaluation per bandit run. Non-trivial = a neighbourhood "
         "bandit that is not the first of its kind in the simulation (receives the shared distance cache), or an online run "
         "with a ragged last batch; distinct = (combo, position, metric, batch size, test size, ordered)")
-BUDGET = {"quick": {"cases": 64, "shards": 8}, "thorough": {"cases": 2000, "shards": 16, "wall_s": 2700}}
+BUDGET = {"quick": {"cases": 256, "shards": 16}, "thorough": {"cases": 6000, "shards": 16, "wall_s": 3600}}
 MIN = {"quick": {"evaluations": 150, "nontrivial": 25, "counters": {"empty_nhood_rows_with_own_distribution": 40, "multi_chunk_simulations": 8}},
        "thorough": {"evaluations": 5000, "nontrivial": 800, "counters": {"empty_nhood_rows_with_own_distribution": 1500, "multi_chunk_simulations": 300}}}
 ASSUMPTIONS = ["context-free bandits are replayed with one predict() per test row, contextual ones with one call per batch",
